@@ -16,7 +16,8 @@ EXTENDS Integers, Sequences, FiniteSets, TLC, Json
 
 CONSTANTS MaxNonDefault     \* how many arguments may differ from the default at once (2: pairwise, 9: full product)
 
-Apis      == {"make", "make_qr", "make_micro"}
+Apis      == {"make", "make_qr", "make_micro", "make_sequence"}
+CountCs   == {"none", "two", "sixteen", "zero", "seventeen"}       \* symbol_count of make_sequence
 VersionCs == {"none", "int", "str_int", "micro_upper", "micro_lower", "zero", "neg", "big", "str_bad", "str_junk", "str_big"}
 ErrorCs   == {"none", "M", "m", "H", "h", "bad", "empty"}
 ModeCs    == {"none", "canon", "upper", "mixed", "bad"}
@@ -29,23 +30,27 @@ VARIABLES pc, a, ver, refusals, lookup
 vars == <<pc, a, ver, refusals, lookup>>
 
 Default == [api |-> "make", version |-> "none", error |-> "none", mode |-> "none", mask |-> "none", micro |-> "none",
-            eci |-> FALSE, boost |-> TRUE, encoding |-> "none", content |-> "text"]
-NonDefault(x) == Cardinality({f \in DOMAIN Default : x[f] # Default[f]})
+            eci |-> FALSE, boost |-> TRUE, encoding |-> "none", content |-> "text", count |-> "none"]
+NonDefault(x) == Cardinality({f \in DOMAIN Default \ {"api"} : x[f] # Default[f]})   \* the factory function does not count
 
 ApiOK(x) == /\ (x.api = "make_qr" => x.micro = "none")        \* make_qr has no micro parameter (it passes micro=False)
             /\ (x.api = "make_micro" => x.micro = "none" /\ ~x.eci)   \* make_micro has neither micro nor eci
-EffMicro(x) == IF x.api = "make_qr" THEN "no" ELSE IF x.api = "make_micro" THEN "yes" ELSE x.micro
+            /\ (x.api = "make_sequence" => x.micro = "none" /\ ~x.eci)   \* make_sequence has neither micro nor eci
+            /\ (x.api # "make_sequence" => x.count = "none")
+EffMicro(x) == IF x.api \in {"make_qr", "make_sequence"} THEN "no" ELSE IF x.api = "make_micro" THEN "yes" ELSE x.micro
 
 Init == /\ pc = "pick" /\ a = Default /\ ver = "?" /\ refusals = {} /\ lookup = FALSE
 Pick == /\ pc = "pick" /\ pc' = "version"
         /\ \E api \in Apis : \E v \in VersionCs : \E e \in ErrorCs : \E m \in ModeCs : \E k \in MaskCs : \E mi \in MicroCs :
-           \E eci \in BOOLEAN : \E bo \in BOOLEAN : \E enc \in EncCs : \E c \in ContentCs :
+           \E eci \in BOOLEAN : \E bo \in BOOLEAN : \E enc \in EncCs : \E c \in ContentCs : \E n \in CountCs :
              LET x == [api |-> api, version |-> v, error |-> e, mode |-> m, mask |-> k, micro |-> mi, eci |-> eci, boost |-> bo,
-                       encoding |-> enc, content |-> c] IN
+                       encoding |-> enc, content |-> c, count |-> n] IN
              /\ ApiOK(x) /\ NonDefault(x) <= MaxNonDefault
              /\ a' = x
         /\ UNCHANGED <<ver, refusals, lookup>>
 
+ContentLen(c) == CASE c = "digits" -> 5 [] c = "alnum" -> 5 [] c = "text" -> 5 [] c = "bytes" -> 4 [] c = "int" -> 5 [] c = "empty" -> 0 [] c = "long" -> 40
+CountOf(n) == CASE n = "two" -> 2 [] n = "sixteen" -> 16 [] OTHER -> 0
 VersionKind(v) == CASE v \in {"int", "str_int"} -> "qr" [] v \in {"micro_upper", "micro_lower"} -> "micro" [] v = "none" -> "none" [] OTHER -> "bad"
 Refuse(why) == refusals' = refusals \cup {why}
 
@@ -56,6 +61,9 @@ NormVersion ==
   /\ IF VersionKind(a.version) = "bad" THEN Refuse("version out of M1-M4 / 1-40")
      ELSE IF EffMicro(a) = "no" /\ VersionKind(a.version) = "micro" THEN Refuse("Micro version with micro=False")
      ELSE IF EffMicro(a) = "yes" /\ VersionKind(a.version) = "qr" THEN Refuse("QR version with micro=True")
+     ELSE IF a.api = "make_sequence" /\ a.version = "none" /\ a.count = "none" THEN Refuse("neither version nor symbol_count")
+     ELSE IF a.api = "make_sequence" /\ a.count \in {"zero", "seventeen"} THEN Refuse("symbol_count outside 1 .. 16")
+     ELSE IF a.api = "make_sequence" /\ a.count \in {"two", "sixteen"} /\ ContentLen(a.content) < CountOf(a.count) THEN Refuse("content shorter than symbol_count")
      ELSE UNCHANGED refusals
   /\ UNCHANGED <<a, lookup>>
 \* normalize_errorlevel, normalize_mode, and the documented exclusions
@@ -76,7 +84,7 @@ PrepareContent ==
   /\ lookup' = (a.encoding = "unknown")
   /\ UNCHANGED <<a, ver, refusals>>
 \* find_version: the long content fits no Micro QR Code
-ResultMicro == ver = "micro" \/ (ver = "none" /\ EffMicro(a) # "no" /\ ~a.eci /\ ~IsH(a.error) /\ a.content # "long")
+ResultMicro == a.api # "make_sequence" /\ (ver = "micro" \/ (ver = "none" /\ EffMicro(a) # "no" /\ ~a.eci /\ ~IsH(a.error) /\ a.content # "long"))
 Size ==
   /\ pc = "size" /\ pc' = "mask"
   /\ IF a.content = "long" /\ MicroWanted THEN Refuse("data overflow") ELSE UNCHANGED refusals
